@@ -112,3 +112,62 @@ Example C17_example :
   ss_trace (fst (drain nat nat nat nat run (SubState (ExecState 5 [99]) [1; 2; 3] 0 [])))
     = [Pulled 0; Emitted 0; Pulled 1; Emitted 1; Pulled 2; Emitted 2; Ended].
 Proof. split; [intros c e; split; reflexivity|split; reflexivity]. Qed.
+
+(* ------------------------------------------------------------------------
+   Composition with the C04 cached executor (Exec/ExecCache.v, read-only).
+   [run] is no longer abstract: it is [run_c] = exec_sel_c (the executor with
+   its five memo tables as state) on the subscription's root type and
+   selections, the tables threaded through ALL events (a subscription keeps
+   one executor, so also the per-execution tables persist), followed by
+   clear_errors / the shared error list of Exec/SubscribeModel.v.  The cache
+   hypothesis of C17_isolation is discharged from C04's transparency theorem
+   (exec_sel_c_pure, the lemma behind C04_history_tables /
+   C04_history_invariant) with invariant [cache_inv] and fresh caches
+   [empty_cache].  What remains are C04's own parameters: the two tests of key
+   identity of the tables must only answer true on equal keys.  An event whose
+   execution lets an exception escape is recorded as that outcome (in the code
+   the exception leaves __anext__). *)
+From PyGql Require Import Exec.ExecCache Proofs.ExecCacheProofs Proofs.SubscribeExecProofs.
+
+(* the k-th result -- data and error list -- is exactly the result of
+   executing the selection on event k alone with no tables and an empty error
+   list, whatever (sound) entries the tables hold and whatever errors linger
+   in the shared list when the stream starts *)
+Theorem C17_isolation_exec :
+  forall sch frags vs coerce_args world tyres cfuel sels_eqb argkey_eqb,
+    (forall a b, sels_eqb a b = true -> a = b) ->
+    (forall a b, argkey_eqb a b = true -> a = b) ->
+    forall fuel root_type sels (s : sub_state cache pv error),
+      cache_inv sch frags vs coerce_args cfuel (es_cache (ss_exec s)) ->
+      let run := run_c sch frags vs coerce_args world tyres cfuel sels_eqb argkey_eqb fuel root_type sels in
+      let fresh := fresh_result sch frags vs coerce_args world tyres cfuel fuel root_type sels in
+      snd (drain cache pv (outcome pv) error run s) = map fresh (ss_source s) /\
+      forall k e r, nth_error (ss_source s) k = Some e ->
+        nth_error (snd (drain cache pv (outcome pv) error run s)) k = Some r ->
+        r = fresh e.
+Proof.
+  intros sch frags vs coerce_args world tyres cfuel se ae H1 H2 fuel rt sels s Hinv.
+  exact (isolation_exec sch frags vs coerce_args world tyres cfuel se ae H1 H2 fuel rt sels s Hinv).
+Qed.
+Print Assumptions C17_isolation_exec.
+
+(* the premise is satisfiable at the start (new executor) and is kept by the
+   stream, so it also holds for a stream resumed after any number of events *)
+Theorem C17_tables_stay_sound :
+  forall sch frags vs coerce_args world tyres cfuel sels_eqb argkey_eqb,
+    (forall a b, sels_eqb a b = true -> a = b) ->
+    (forall a b, argkey_eqb a b = true -> a = b) ->
+    forall fuel root_type sels,
+      cache_inv sch frags vs coerce_args cfuel empty_cache /\
+      forall (s : sub_state cache pv error),
+        cache_inv sch frags vs coerce_args cfuel (es_cache (ss_exec s)) ->
+        cache_inv sch frags vs coerce_args cfuel
+          (es_cache (ss_exec (fst (drain cache pv (outcome pv) error
+             (run_c sch frags vs coerce_args world tyres cfuel sels_eqb argkey_eqb fuel root_type sels) s)))).
+Proof.
+  intros sch frags vs coerce_args world tyres cfuel se ae H1 H2 fuel rt sels. split.
+  - apply empty_cache_inv.
+  - intros s Hinv.
+    exact (stream_keeps_tables_sound sch frags vs coerce_args world tyres cfuel se ae H1 H2 fuel rt sels s Hinv).
+Qed.
+Print Assumptions C17_tables_stay_sound.
